@@ -1583,9 +1583,20 @@ sim::CaseResult PlanSim::run(const sim::Options &o, const Json &plan)
                 // (only when the problem definition holds no solution yet - the never-used planner's is empty too; a planner
                 // whose clear() also resets its setup flag is set up again first, as the never-used one is, so that both solves
                 // start from a set-up planner)
-                const bool refRun = P == "C03" && op.has("ref_stream") && !scheduled && freshQuery && before.empty();
+                bool refRun = P == "C03" && op.has("ref_stream") && !scheduled && freshQuery && before.empty();
                 if (refRun && !planner->isSetup())
-                    planner->setup();
+                {
+                    try
+                    {
+                        planner->setup();
+                    }
+                    catch (ompl::Exception &)
+                    {
+                        // the planner refuses this configuration (BIT* on a space its informed sampler does not support):
+                        // solve() will say so itself; nothing to compare
+                        refRun = false;
+                    }
+                }
                 long drawsA = 0;
                 struct DrawsGuard
                 {
